@@ -685,6 +685,12 @@ func (r *FileRestorer) applyDecorations(node ast.Node, name string, decorations 
 
 		// for newline decorations and also line-comments, add a newline
 		if isLineComment || isNewline {
+			if isNewline {
+				// Advance the cursor one more byte, so the new line starts after the end of the
+				// previous token (see applySpace). Otherwise the End() of a token that is directly
+				// followed by a newline decoration is reported on the next line.
+				r.cursor++
+			}
 			lineOffset := int(r.cursor) - r.base // remember lines are relative to the file base
 			r.lines = append(r.lines, lineOffset)
 			r.cursor++
